@@ -209,7 +209,7 @@ def readcodemathematica(dra, indicespath, valuespath):
     else:
         k, position = 1, 'first'
     rff = f'(* create a function that returns the k-th subarray\n' \
-          f'   from the values array *):\n' \
+          f'   from the values array *)\n' \
           f'getsubarray[k_?IntegerQ] := \n' \
           f'    Module[{{l}},\n' \
           f'        l = k;\n' \
